@@ -145,8 +145,9 @@ pub fn encode_case(c: &Value) -> Vec<u8> {
             let entries: Vec<[i64; 4]> = h["entries"].as_array().unwrap().iter()
                 .map(|e| { let a = e.as_array().unwrap(); [a[0].as_i64().unwrap(), a[1].as_i64().unwrap(), a[2].as_i64().unwrap(), a[3].as_i64().unwrap()] }).collect();
             let store: Vec<u8> = h["store"].as_array().unwrap().iter().map(|x| x.as_u64().unwrap() as u8).collect();
-            let n = h.get("nindex").and_then(|x| x.as_u64()).unwrap_or(entries.len() as u64) as u32;
-            let d = h.get("dsize").and_then(|x| x.as_u64()).unwrap_or(store.len() as u64) as u32;
+            // negative numbers stand for u32 values >= 2^31 (TLC integers are 32-bit): -1 is 0xFFFFFFFF
+            let n = h.get("nindex").and_then(|x| x.as_i64()).unwrap_or(entries.len() as i64) as u32;
+            let d = h.get("dsize").and_then(|x| x.as_i64()).unwrap_or(store.len() as i64) as u32;
             rawhdr::encode_raw(magic, [r, r, r, r], n, d, &entries, &store)
         }
     };
